@@ -429,20 +429,31 @@ def pool_ops_part(chk):
         pool.release_all()
     # a worker that is dead (declared so by the registry) when the operation ends must be released like any other
     courier_utils._worker_registry.unregister('ops-w2')
+    dead_first = courier_worker.WorkerPool(['ops-w2', 'ops-w1'], call_timeout=5)
+    import threading as _th
     for name, fn in (('call_and_wait with a dead worker', lambda: pool.call_and_wait(lazy_fns.trace(lazylib.inc)(1))),
-                     ('call_and_wait raising with a dead worker', lambda: pool.call_and_wait(lazy_fns.trace(lazylib.boom)(1)))):
+                     ('call_and_wait raising with a dead worker', lambda: pool.call_and_wait(lazy_fns.trace(lazylib.boom)(1))),
+                     # the operation fails while it is being submitted (an argument that cannot be pickled)
+                     ('call_and_wait failing at submission', lambda: pool.call_and_wait(lazy_fns.trace(lazylib.add)(_th.Lock(), 1))),
+                     # run() walks over the dead worker (listed first) on its way to the usable one
+                     ('run with a dead worker', lambda: dead_first.run(lazy_fns.trace(lazylib.inc)(1))),
+                     ('run raising with a dead worker', lambda: dead_first.run(lazy_fns.trace(lazylib.boom)(1)))):
       try:
         fn()
         raised = False
       except Exception:  # pylint: disable=broad-exception-caught
         raised = True
       chk.replayed()
-      left = [w.address for w in pool.acquired_workers] + [w.address for w in pool.all_workers if w.is_locked(pool) and w not in pool.acquired_workers]
+      left = []
+      for pl in (pool, dead_first):
+        left += [w.address for w in pl.acquired_workers] + [w.address for w in pl.all_workers if w.is_locked(pl) and w not in pl.acquired_workers]
       if left:
-        chk.violation(f'pool-op:workers-left-acquired:dead-worker:{"raise" if raised else "return"}',
+        what = 'submission-failure' if 'submission' in name else 'dead-worker'
+        chk.violation(f'pool-op:workers-left-acquired:{what}:{name.split()[0]}:{"raise" if raised else "return"}',
                       f'after {name}: {left} still acquired', dict(kind='pool-op', op=name, left=left))
-        for w in pool.all_workers:
-          w.release(pool)
+        for pl in (pool, dead_first):
+          for w in pl.all_workers:
+            w.release(pl)
   finally:
     for s in servers:
       try:
